@@ -123,6 +123,12 @@ var c07Model = porcupine.Model{
 				if s.done && out.Err == "nil" {
 					ok = true
 				}
+				// A reader that fails where the stream would have ended anyway (a library that
+				// reads ahead in large pieces meets the injected failure in place of io.EOF):
+				// all objects were delivered, and reporting that failure is as right as nil.
+				if s.done && in.Faulty && (out.Err == "injected" || strings.HasPrefix(out.Err, "other:") || (in.FaultCtx && out.Err == "ctx")) {
+					ok = true
+				}
 				if s.closed && out.Err == "closed" {
 					ok = true
 				}
